@@ -76,6 +76,20 @@ def step (line : String) : String :=
       | .error e => showErr e
       | .ok l => "ok " ++ (if l.isEmpty then "-" else joinNats l)
     | _, _ => "bad-op"
+  -- plotsel <totalFrames> <films csv|-> <pres d:o,d:o|-> <chans csv|->
+  | ["plotsel", n, films, pres, chans] =>
+    let nats (t : String) : Option (List Nat) := if t = "-" then some [] else (t.splitOn ",").mapM (·.toNat?)
+    let rows (t : String) : Option (List PresRow) :=
+      if t = "-" then some [] else (t.splitOn ",").mapM (fun x => match x.splitOn ":" with
+        | [d, o] => match d.toNat?, o.toNat? with
+          | some d, some o => some ⟨d, o⟩
+          | _, _ => none
+        | _ => none)
+    match n.toNat?, nats films, rows pres, nats chans with
+    | some n, some fs, some ps, some cs =>
+      let r := plotLoop (hasDataToPlot n ps cs) fs
+      "ok " ++ (if r.isEmpty then "-" else joinNats r)
+    | _, _, _, _ => "bad-op"
   | _ => "bad-op"
 
 def main : IO Unit := run step
